@@ -24,6 +24,7 @@ violation and never a silent pass.
 """
 from __future__ import annotations
 import ast
+import hashlib
 import pathlib
 from .model import Func, AnalysisError
 from .terms import Recon, subst, simplify, show, atoms, walk
@@ -100,6 +101,24 @@ def _arith(t):
     return subst(t, rule)
 
 
+_DG = {}
+
+
+def digest(t):
+    """structural digest of a term; shared sub-terms (same object) are hashed once, so the cost is linear in the DAG"""
+    if not isinstance(t, tuple):
+        return repr(t)
+    k = id(t)
+    hit = _DG.get(k)
+    if hit is not None and hit[0] is t:
+        return hit[1]
+    h = hashlib.sha1(('(' + ','.join(digest(x) for x in t) + ')').encode()).hexdigest()[:24]
+    if len(_DG) > 400000:
+        _DG.clear()
+    _DG[k] = (t, h)
+    return h
+
+
 def norm(t):
     if not isinstance(t, tuple):
         return t
@@ -112,7 +131,7 @@ def _cond_key(conds):
         if isinstance(c, tuple) and c and c[0] in ('inloop',):
             continue
         out.append((c, pol))
-    return tuple(sorted(((repr(norm(c)), pol) for c, pol in atoms(out))))
+    return tuple(sorted(((digest(norm(c)), pol) for c, pol in atoms(out))))
 
 
 class Summary:
@@ -157,7 +176,7 @@ class Summary:
                     self.finals[p] = norm(v)
 
     def keys(self, arith=False):
-        f = (lambda t: repr(_arith(t))) if arith else repr
+        f = (lambda t: digest(_arith(t))) if arith else digest
         out = [(k, c, f(d)) for k, c, d, _ in self.entries]
         out += [('final:' + p, (), f(v)) for p, v in sorted(self.finals.items())]
         return sorted(out)
@@ -195,8 +214,8 @@ def compare(ctx, target_q, spec_node, rule, what):
         raise AnalysisError(f"{target_q} has been restructured ({got.loops} loops, reference has {want.loops}): "
                             f"the reference in sa/specs must be re-confirmed by hand")
     gk, wk = got.keys(arith=True), want.keys(arith=True)
-    extra = [e for e in got.entries if (e[0], e[1], repr(_arith(e[2]))) not in wk]
-    missing = [e for e in want.entries if (e[0], e[1], repr(_arith(e[2]))) not in gk]
+    extra = [e for e in got.entries if (e[0], e[1], digest(_arith(e[2]))) not in wk]
+    missing = [e for e in want.entries if (e[0], e[1], digest(_arith(e[2]))) not in gk]
     fin = [p for p in set(got.finals) | set(want.finals) if got.finals.get(p) != want.finals.get(p)]
     lines = []
     for e in extra[:3]:
